@@ -104,6 +104,12 @@ def make_case(i, flagbits):
         for _ in range(rnd.randrange(0, 4)):
             for pts in special_polygons(rnd, grid):
                 c['polys'].append({'tag': g.tag(), 'pts': pts, 'rep': g.repetition(grid) if rnd.random() < 0.3 else None, 'props': g.oas_props()})
+    if rnd.random() < 0.12:
+        # a frame around everything in one cell whose corners round in opposite directions: the cell's box on the grid is one unit wider
+        # than the rounded difference of its corners (S_BOUNDING_BOX states the former)
+        L = rnd.choice([10 ** 5, 10 ** 6]) + rnd.randrange(0, 1000)
+        fr = [(-L - 0.4, -L - 0.4), (L + 0.4, -L - 0.4), (L + 0.4, L + 0.4), (-L - 0.4, L + 0.4)]
+        rnd.choice(lib['cells'])['polys'].append({'tag': g.tag(), 'pts': [(a * grid, b * grid) for a, b in fr], 'rep': None, 'props': []})
     if lib.get('props') is None:
         lib['props'] = []
     # a referenced cell that is not added to the library: its references must survive as references by name
